@@ -2,8 +2,8 @@
 from reg._common import COMMON_ASSUME
 
 ENTRY = {
-    'lean_files': ['Tables/C05.lean', 'Props/C05.lean', 'Props/C05Rounding.lean', 'Lemmas/TriRoundingTables.lean'],
-    'lemma_files': ['Lemmas/Shift.lean', 'Lemmas/Shift2.lean', 'Lemmas/Bridge.lean', 'Lemmas/VS.lean',
+    'lean_files': ['Tables/C05.lean', 'Props/C05.lean', 'Props/C05Rounding.lean', 'Lemmas/TriRoundingTables.lean', 'Props/C05RoundingF90.lean'],
+    'lemma_files': ['Lemmas/RoundingMore.lean', 'Lemmas/Shift.lean', 'Lemmas/Shift2.lean', 'Lemmas/Bridge.lean', 'Lemmas/VS.lean',
                     'Lemmas/Ieee.lean', 'Lemmas/Subdivide.lean', 'Lemmas/Triangle.lean', 'Lemmas/Rounding.lean',
                     'Lemmas/RoundingTables.lean', 'Lemmas/TriRounding.lean',
                     'Model/Basic.lean', 'Model/Curve.lean', 'Model/Triangle.lean'],
@@ -15,13 +15,10 @@ ENTRY = {
             'random weights (tolerance 4(3d+6)u * sum|term|), degrees 1..12 and 28..32 (thorough 1..40); corners bitwise; '
             'compute_edge_nodes = boundary rows (exact); Triangle.edges curves = surface on the sides; verification of '
             'the class methods on boundary values; non-trivial = net not all zero; distinct by hash of exact inputs',
-    'partial': ['rounding theorem eval_rounding(_py): |fl-model - Bernstein sum| <= ((1+u)^(2d+4)-1) * sum|term| in the standard '
-                'model for the Python loop with barycentric weights given as binary64 numbers (degree <= 54 without any '
-                'binomial hypothesis); the comparator uses 4(3d+6)u >= that bound; not formalised: the extra roundings of '
-                '1 - s - t in the Cartesian entry points and the Fortran loop (which differs by the order of one product '
-                'and by copying instead of 0 + v); that binary64 satisfies the standard model is trusted',
-                'corners (1,0,0), (0,1,0) exact: proved under IeeeNatLaws (small integers exact) for degree <= 51 '
-                '(Python) / <= 29 (Fortran int32); corner (0,0,1) for every degree'],
+    'partial': [
+                'rounding theorems (standard model |fl x - x| <= u|x|, data exactly representable): Python loop eval_rounding(_py) and Fortran loop eval_rounding_f90 (real binomial; the shipped int32 loop equals it for d <= 29: f90_int32_eq_real): |fl-model - Bernstein sum| <= ((1+u)^(2d+4)-1) * sum|term|; Cartesian entry points: 2d+4 against the computed weight fl(fl(1-s)-t), 4d+4 against the exact 1-s-t with |1-s|+|t| in the scale; the comparator constant 4(3d+6) u exceeds 1.01 (4d+4) u (eval_comparator, cartesian_comparator); that binary64 satisfies the standard model is trusted',
+                'corners (1,0,0), (0,1,0) exact: proved under IeeeNatLaws (small integers exact) for degree <= 51 (Python) / <= 29 (Fortran int32); corner (0,0,1) for every degree',
+    ],
     'trusted_base': ['modelled not verified: evaluate_barycentric / evaluate_barycentric_multi / evaluate_cartesian_multi / '
                      'compute_edge_nodes in triangle_helpers.py and triangle.f90; Triangle.evaluate_* / Triangle.edges glue; '
                      'gfortran wraps signed 32-bit overflow (the model of integer(c_int) arithmetic), checked by '
